@@ -20,7 +20,7 @@ pub fn def() -> PropDef {
 }
 
 fn streams(t: Tier) -> Vec<StreamDef> {
-    vec![st("crafted", t.n(42 * 16 * 24, 42 * 16 * 400, 150, 42 * 16 * 8), true), st("random", t.n(100_000, 5_000_000, 150, 30_000), false)]
+    vec![st("crafted", t.n(42 * 16 * 24, 42 * 16 * 400, 96, 42 * 16 * 8), true), st("random", t.n(100_000, 5_000_000, 96, 30_000), false)]
 }
 
 fn floors(t: Tier) -> Vec<(String, u64)> {
@@ -123,7 +123,7 @@ fn run(ctx: &mut Ctx) {
         "crafted" => {
             let attr = (ctx.idx % 42) as u16;
             let sel = ((ctx.idx / 42) % LEN_SEL as u64) as usize;
-            let blocks = *ctx.rng.pick(&[1usize, 1, 2, 2, 3, 5, 63, 64]);
+            let blocks = if ctx.tier == Tier::Miri { *ctx.rng.pick(&[1usize, 1, 2, 2, 3, 5]) } else { *ctx.rng.pick(&[1usize, 1, 2, 2, 3, 5, 63, 64]) };
             let vlen = 16 * blocks;
             let secret = val::secret(&mut ctx.rng);
             let mut rv = [0u8; 4];
@@ -149,6 +149,7 @@ fn run(ctx: &mut Ctx) {
                 8 => 1024,
                 _ => *r.pick(&[4096usize, 15, 17, 31, 33]),
             };
+            let n = if ctx.tier == Tier::Miri { n.min(80) } else { n };
             let value = r.bytes(n);
             let secret = val::secret(r);
             let mut rv = [0u8; 4];
